@@ -46,13 +46,18 @@ class _RaisingText:
         return f'<RaisingText {self.exc.__name__}>'
 
 
-FS_OPS = ['V0', 'V1', 'V2', 'V3', 'V-alt', 'V-shared', 'V-replaced', 'V-kw', 'V-nested', 'A-import', 'A-create', 'A-file', 'A-prefix',
-          'F-enc', 'F-port', 'F-shared', 'F-late', 'F-mc', 'F-prefix-type', 'F-origin', 'F-text', 'F-text-base']
-FS_VALID = FS_OPS[:13]
-FS_FAIL = FS_OPS[13:]
+FS_OPS = ['V0', 'V1', 'V2', 'V3', 'V-alt', 'V-shared', 'V-replaced', 'V-kw', 'V-nested', 'V2-prefix', 'V-long-indented', 'V-long',
+          'V-outer', 'V-inj', 'A-import', 'A-create', 'A-file', 'A-prefix',
+          'F-enc', 'F-enc-outer', 'F-port', 'F-shared', 'F-late', 'F-mc', 'F-prefix-type', 'F-origin', 'F-text', 'F-text-base']
+FS_VALID = FS_OPS[:18]
+FS_FAIL = FS_OPS[18:]
 # A-...: the caller ASSIGNS a field of the (mutable) configuration object 'V0' and builds it again - facilities origin
 # import / create, another source file name; A-prefix: the caller changes the namespace-prefix OBJECT of configuration 'V1' in
 # place (last identifier replaced) and builds V1; V-replaced: a ports configuration derived from V0's with dataclasses.replace;
+# V2-prefix: the multi-client build with a namespace prefix; V-long-indented / V-long: creator lines of 130 characters, the first
+# one beginning with blanks; V-outer: a component in N.M whose port type lives in the OUTER scope N, F-enc-outer: that model with
+# the encapsulee name N.M.IShared (fails; the same identifiers as the lookup of the port type, split differently); V-inj: model 0
+# with port r2 INJECTED (same port names, same selections as V0)
 # V-kw: ports named like C++ / Python keywords (`default`, `register`, `pass`); V-nested: configuration V0 whose creator text is
 # an object that, WHILE it is rendered, builds another shell (V1, import) with another Builder and then answers 'me' - the
 # result must be the one of V0
@@ -78,6 +83,16 @@ def fs_models():
     for port, name in zip(comp.node[2], ('default', 'register', 'pass')):
         port[0] = name
     res.append(kw)
+    # 7: component in N.M, interface in the outer scope N, written with its simple name   8: model 0 with r2 injected
+    pt = dict(M.BASE_POINT)
+    pt.update({'ns': 'N.M', 'place': 'parent', 'nreq': 2})
+    res.append(M.build_model(pt)[0])
+    inj = copy.deepcopy(res[0])
+    comp = [d for d in M.declarations(inj['doc']) if d.kind == 'component'][0]
+    for port in comp.node[2]:
+        if port[0] == 'r2':
+            port[3] = True
+    res.append(inj)
     itf = [d for d in M.declarations(res[3]['doc']) if d.kind == 'interface'][0]
     with_formals = [ev for ev in itf.node[3] if ev[3]]
     with_formals[-1][3][-1][1] = ['Nope']
@@ -149,6 +164,11 @@ class FsWorld:
             'V0': cfg(0, create), 'V1': cfg(0, imp), 'V2': cfg(1, fs_desc('mc')), 'V3': cfg(2, imp),
             'V-alt': cfg(4, create), 'V-shared': cfg(0, create, self.shared_ports),
             'V-kw': cfg(6, dict(create, requires=[['register'], 'REMAINING'])),
+            'V2-prefix': cfg(1, dict(fs_desc('mc'), prefix='Other.Project')),
+            'V-long-indented': cfg(0, dict(create, creator='    run the generator with ' + 'many words ' * 10 + 'end')),
+            'V-long': cfg(0, dict(create, creator='generated by the build of ' + 'several words ' * 8 + 'end')),
+            'V-outer': cfg(7, create), 'V-inj': cfg(8, create),
+            'F-enc-outer': cfg(7, create, fqn_encapsulee_name=ns_ids_t('N.M.IShared')),
             'F-enc': cfg(0, create, fqn_encapsulee_name=ns_ids_t('No.Such')),
             'F-port': cfg(0, dict(create, requires=[['r', 'ghost'], 'REMAINING'])),
             'F-shared': cfg(5, create, self.shared_ports),
@@ -273,11 +293,11 @@ def fs_histories(level):
                     yield [f, f, g, v]
 
 
-def explore_reduced(ctx, level='reduced'):
+def explore_reduced(ctx, level='reduced', overrides=(None,)):
     """Run the family from another check (violations are reported under that check's property)."""
     from .core import Partial  # pylint: disable=import-outside-toplevel
     ref = fs_references()
-    jobs = [(which, override, level, first, ref) for which in ('shared', 'fresh') for override in (None, 2) for first in FS_OPS]
+    jobs = [(which, override, level, first, ref) for which in ('shared', 'fresh') for override in overrides for first in FS_OPS]
     for part in pmap(_fs_job, jobs):
         ctx.merge(part)
     ctx.extra['failure_stage_reference_processes'] += len(ref)
